@@ -153,6 +153,7 @@ func H_C01_reuse() {
 	m := buildMessage(s)
 	p := ctlFromParams(1)
 	p.first = true
+	p.route = 3 // concrete values: this harness is about buffer ownership, not about contents
 	p.populateMessage(s, m)
 	out, err := m.ToBytes()
 	zz.Assert(err == nil, "C01: ToBytes returned an error")
